@@ -163,33 +163,38 @@ Record oracles := mkOr {
   o_decompress : bytes -> option bytes;  (* client request compression, bounded by limit: None = error *)
   o_decode : bytes -> option bytes;      (* client codec (or body preparer): wire bytes -> message *)
   o_encode : bytes -> option bytes;      (* server codec (or body preparer): message -> wire bytes *)
-  o_compress : bytes -> bytes            (* server request compression *)
+  o_compress : bytes -> bytes;           (* server request compression *)
+  o_toobig : bytes -> bool               (* decompression stopped because the output exceeds the limit *)
 }.
 
-(** result: Some bytes, or None (error reported to the client). *)
-Definition advance_send (cx : rctx) (o : oracles) (was_compressed : bool) (b : bytes) : option bytes :=
-  if same_codec cx && (negb was_compressed || same_comp cx) then Some b        (* fast path *)
+Definition decomp_class (o : oracles) (b : bytes) : ecls := if o_toobig o b then EResourceExhausted else EOther.
+
+(** result: the bytes to send, or the class of the error reported to the client *)
+Definition advance_send (cx : rctx) (o : oracles) (was_compressed : bool) (b : bytes) : bytes + ecls :=
+  if same_codec cx && (negb was_compressed || same_comp cx) then inl b        (* fast path *)
   else if negb (same_codec cx) then
     (* stageRead -> stageDecoded -> stageSend *)
-    let plain := if was_compressed && client_comp cx && negb (Nat.eqb (length b) 0) then o_decompress o b else Some b in
+    let plain := if was_compressed && client_comp cx && negb (Nat.eqb (length b) 0)
+                 then match o_decompress o b with Some p => inl p | None => inr (decomp_class o b) end else inl b in
     match plain with
-    | None => None
-    | Some p =>
+    | inr e => inr e
+    | inl p =>
         match o_decode o p with
-        | None => None
+        | None => inr EOther
         | Some m =>
             match o_encode o m with
-            | None => None
-            | Some e => Some (if was_compressed && server_comp cx then o_compress o e else e)
+            | None => inr EOther
+            | Some e => inl (if was_compressed && server_comp cx then o_compress o e else e)
             end
         end
     end
   else
     (* same codec, compressed, different compression: decompress then compress *)
-    let plain := if client_comp cx && negb (Nat.eqb (length b) 0) then o_decompress o b else Some b in
+    let plain := if client_comp cx && negb (Nat.eqb (length b) 0)
+                 then match o_decompress o b with Some p => inl p | None => inr (decomp_class o b) end else inl b in
     match plain with
-    | None => None
-    | Some p => Some (if server_comp cx then o_compress o p else p)
+    | inr e => inr e
+    | inl p => inl (if server_comp cx then o_compress o p else p)
     end.
 
 (** * transformingReader *)
@@ -246,8 +251,8 @@ Definition read_request_message (cx : rctx) (u : up) : rmsg :=
 (** transformingReader.prepareMessage: Some (buffer, envelope) or None (error) *)
 Definition tr_prepare (cx : rctx) (o : oracles) (payload : bytes) (compressed : bool) : option (bytes * bytes) * option ecls :=
   match advance_send cx o compressed payload with
-  | None => (None, Some EOther)
-  | Some b =>
+  | inr e => (None, Some e)
+  | inl b =>
       if limit cx <? Z.of_nat (length b) then (None, Some EResourceExhausted)
       else match senv cx with
            | None => (Some (b, []), None)
